@@ -89,7 +89,7 @@ PROPS = {
     },
     "C13": {
         "kinds": [("C13", 4500, 160000), ("C13T", 0, 64000), ("C09", 900, 24000)],
-        "rule": "one (tree shape with index holes, K in {2,3}; start node; traversal kind; skip schedule with repeated skips) per case plus all metrics; non-trivial = tree has at least 5 nodes; distinct by case text",
+        "rule": "one (tree shape with index holes, K in {2,3}; start node; traversal kind; skip schedule with repeated skips) per case plus all metrics and the index-order iterators with their values (node_indices forwards and backwards, terminal/decision_indices, node_iter, terminals(), decisions(), edge_iter via extract()); non-trivial = tree has at least 5 nodes; distinct by case text",
         "assumptions": COMMON_ASSUMPTIONS + ["size_hint is judged against the number of items still to come if skip_subtree is not called again (the iterator cannot know future skips)"],
     },
     "C12": {
